@@ -67,7 +67,7 @@ func c13World(t *testing.T, p c13Params) rt.Result {
 		nl := 1 + len(w.Extra)
 		mons := map[string]*hz.PeerMon{}
 		live := map[string]*hz.RConn{} // the connection that carries a peer's Established session
-		var amu sync.Mutex // the dial goroutines of several peers consult the policy concurrently
+		var amu sync.Mutex             // the dial goroutines of several peers consult the policy concurrently
 		acceptFor := map[netip.Addr]bool{}
 		w.DialPolicy = func(r hz.DialReq) (hz.DialAction, time.Duration) {
 			amu.Lock()
